@@ -312,3 +312,107 @@ Proof.
   destruct (blen d <? MIN_DLT_MSG_SIZE); [discriminate|].
   destruct (blen d <? 16); [discriminate|]. rewrite Hp. discriminate.
 Qed.
+
+(* ---------------------------------------------------------------- the checked transcription never panics *)
+Ltac decide_chk :=
+  repeat match goal with
+         | |- context [if ?a <=? ?b then _ else _] =>
+             let H := fresh "Hc" in destruct (N.leb_spec a b) as [H|H]; try (exfalso; unfold blen in *; lia)
+         end.
+
+Lemma scan_pat_chk_ok pat data : forall k i,
+  N.of_nat k + i <= blen data ->
+  scan_pat_chk pat data i k = Ok (scan_pat pat k (skipn (N.to_nat i) data)).
+Proof.
+  induction k as [|k IH]; intros i Hb; cbn [scan_pat_chk scan_pat]; [reflexivity|].
+  unfold slice_from_chk. destruct (N.leb_spec i (blen data)) as [_|Hc]; [|lia]. cbn [bind].
+  destruct (pat (skipn (N.to_nat i) data)) eqn:Ep; [reflexivity|]. cbn [orb].
+  rewrite IH by lia.
+  destruct (skipn (N.to_nat i) data) as [|x t] eqn:El.
+  - exfalso. assert (Hl : length (skipn (N.to_nat i) data) = 0%nat) by (rewrite El; reflexivity).
+    rewrite skipn_length in Hl. unfold blen in Hb. lia.
+  - f_equal. f_equal. replace (N.to_nat (i + 1)) with (N.to_nat i + 1)%nat by lia.
+    rewrite <- skipn_skipn, El. reflexivity.
+Qed.
+
+Lemma from_headers_chk_ok index sh h add payload :
+  blen add + 4 = std_ext_header_size h ->
+  from_headers_chk index sh h add payload = Ok (from_headers index sh h add payload).
+Proof.
+  intros Hl. unfold from_headers_chk, slice_chk, slice_from_chk, sub_chk.
+  unfold std_ext_header_size, DLT_MIN_STD_HEADER_SIZE, DLT_EXT_HEADER_SIZE in *.
+  destruct (has_ecu_id h), (has_session_id h), (has_timestamp h), (has_ext_hdr h); cbn [andb bind];
+    repeat match goal with
+           | |- context [if ?a <=? ?b then _ else _] =>
+               let H := fresh "Hc" in destruct (N.leb_spec a b) as [H|H]; [|exfalso; lia]; cbn [andb bind]
+           | |- context [if ?a <? ?b then _ else _] =>
+               let H := fresh "Hc" in destruct (N.ltb_spec a b) as [H|H]; [|exfalso; lia]; cbn [andb bind]
+           end; reflexivity.
+Qed.
+
+Lemma parse_after_marker_chk_ok hsz pat short sh index data :
+  hsz + 4 <= blen data ->
+  parse_after_marker_chk hsz pat short sh index data = Ok (parse_after_marker hsz pat short sh index data).
+Proof.
+  intros Hn. unfold parse_after_marker_chk, parse_after_marker.
+  unfold sub_chk at 1. destruct (N.leb_spec hsz (blen data)) as [_|Hc]; [|lia]. cbn [bind].
+  unfold slice_from_chk at 1. destruct (N.leb_spec hsz (blen data)) as [_|Hc]; [|lia]. cbn [bind].
+  unfold std_from_buf_chk.
+  assert (Hd1 : blen (skipn (N.to_nat hsz) data) = blen data - hsz) by (unfold blen; rewrite skipn_length; lia).
+  rewrite Hd1. destruct (N.ltb_spec (blen data - hsz) 4) as [Hc|_]; [lia|]. cbn [bind].
+  remember (std_from_buf (skipn (N.to_nat hsz) data)) as stdh eqn:E. clear E Hd1.
+  pose proof (hs_bounds stdh) as Hhs. set (hs := std_ext_header_size stdh) in *.
+  destruct (N.ltb_spec (len stdh) hs) as [|H1]; [reflexivity|].
+  destruct (N.ltb_spec (blen data - hsz) (len stdh)) as [H2|H2].
+  - destruct short; [reflexivity|]. unfold sub_chk. destruct (N.leb_spec (blen data - hsz) (len stdh)); [reflexivity|lia].
+  - unfold sub_chk at 1. destruct (N.leb_spec hs (blen data - hsz)) as [_|Hc]; [|lia]. cbn [bind].
+    unfold sub_chk at 1. destruct (N.leb_spec hs (len stdh)) as [_|Hc]; [|lia]. cbn [bind].
+    unfold sub_chk at 1. destruct (N.leb_spec (len stdh - hs) (blen data - hsz - hs)) as [_|Hc]; [|lia]. cbn [bind].
+    unfold sub_chk at 1. destruct (N.leb_spec (blen data - hsz - hs - (len stdh - hs)) (blen data)) as [_|Hc]; [|lia]. cbn [bind].
+    set (rem2 := blen data - hsz - hs - (len stdh - hs)).
+    set (tc := blen data - rem2).
+    assert (Htc : tc = hsz + len stdh) by (unfold tc, rem2; lia).
+    assert (Hnxt : (if 4 <=? rem2 then (d <- slice_from_chk data tc ;; Ok (negb (pat d)))%res else Ok false)
+                   = Ok ((4 <=? rem2) && negb (pat (skipn (N.to_nat tc) data)))).
+    { destruct (4 <=? rem2); [|reflexivity]. unfold slice_from_chk.
+      destruct (N.leb_spec tc (blen data)) as [_|Hc]; [reflexivity|lia]. }
+    rewrite Hnxt. cbn [bind].
+    assert (Hfound : (if (4 <=? rem2) && negb (pat (skipn (N.to_nat tc) data))
+                      then scan_pat_chk pat data 5 (N.to_nat tc - 5) else Ok false)
+                     = Ok ((4 <=? rem2) && negb (pat (skipn (N.to_nat tc) data))
+                           && scan_pat pat (N.to_nat tc - 5) (skipn 5 data))).
+    { destruct ((4 <=? rem2) && negb (pat (skipn (N.to_nat tc) data))); [|reflexivity].
+      rewrite scan_pat_chk_ok by lia. reflexivity. }
+    rewrite Hfound. cbn [bind].
+    destruct ((4 <=? rem2) && negb (pat (skipn (N.to_nat tc) data)) && scan_pat pat (N.to_nat tc - 5) (skipn 5 data));
+      [reflexivity|].
+    unfold slice_chk.
+    destruct (N.leb_spec (hsz + hs) (hsz + hs + (len stdh - hs))) as [_|Hc]; [|lia].
+    destruct (N.leb_spec (hsz + hs + (len stdh - hs)) (blen data)) as [_|Hc]; [|lia].
+    cbn [andb bind].
+    destruct (N.leb_spec (hsz + DLT_MIN_STD_HEADER_SIZE) (hsz + hs)) as [_|Hc]; [|unfold DLT_MIN_STD_HEADER_SIZE in *; lia].
+    destruct (N.leb_spec (hsz + hs) (blen data)) as [_|Hc]; [|lia].
+    cbn [andb bind].
+    replace (hsz + hs + (len stdh - hs) - (hsz + hs)) with (len stdh - hs) by lia.
+    rewrite from_headers_chk_ok; [reflexivity|].
+    unfold blen at 1. rewrite slice_length; [unfold DLT_MIN_STD_HEADER_SIZE; fold hs; lia|].
+    unfold blen, DLT_MIN_STD_HEADER_SIZE in *. lia.
+Qed.
+
+Theorem parse_storage_chk_ok index data : parse_storage_chk index data = Ok (parse_storage index data).
+Proof.
+  unfold parse_storage_chk, parse_storage, MIN_DLT_MSG_SIZE.
+  destruct (N.ltb_spec (blen data) 20) as [H|H].
+  - unfold sub_chk. destruct (N.leb_spec (blen data) 20); [reflexivity|lia].
+  - destruct (storage_from_buf data); [|reflexivity].
+    apply parse_after_marker_chk_ok. unfold DLT_STORAGE_HEADER_SIZE. lia.
+Qed.
+
+Theorem parse_serial_chk_ok index data : parse_serial_chk index data = Ok (parse_serial index data).
+Proof.
+  unfold parse_serial_chk, parse_serial, MIN_DLT_MSG_SIZE, DLT_SERIAL_HEADER_SIZE, DLT_MIN_STD_HEADER_SIZE.
+  destruct (N.ltb_spec (blen data) (4 + 4)) as [H|H].
+  - unfold sub_chk. destruct (N.leb_spec (blen data) 20); [reflexivity|lia].
+  - destruct (negb (is_serial_pat data)); [reflexivity|].
+    apply parse_after_marker_chk_ok. lia.
+Qed.
